@@ -77,9 +77,17 @@ def build(spec):
     def make_members(members, exposed_decorate=True):
         ns = {}
         iattrs = {}
+        def try_expose(x):
+            # the application TRIES to expose a private name member by member: the library may refuse (then the member simply is
+            # not exposed) - whatever it does, a private name must never become reachable
+            try:
+                return api.expose(x)
+            except AttributeError:
+                return x
         for m in members:
             name, kind = m["name"], m["kind"]
             deco = m.get("exposed") and not my_is_private(name)
+            tried = m.get("exposed") and my_is_private(name) and not (name.startswith("__") and name.endswith("__"))
 
             def mk_method(name=name):
                 def f(self, *a, **k):
@@ -93,6 +101,8 @@ def build(spec):
                     f = api.oneway(f)
                 if deco:
                     f = api.expose(f)
+                elif tried:
+                    f = try_expose(f)
                 ns[name] = f
             elif kind == "static":
                 def f(*a, _n=name, **k):
@@ -125,6 +135,8 @@ def build(spec):
                 p = property(g if kind != "prop_wo" else None, s if kind != "prop_ro" else None)
                 if deco:
                     p = api.expose(p)
+                elif tried:
+                    p = try_expose(p)
                 ns[name] = p
             elif kind == "attr":
                 ns[name] = ["class-attr", name]
@@ -285,6 +297,22 @@ def spec_strategy(draw):
 NONSTRING = [5, None, True, 1.5, ["alpha"], {"a": 1}, b"alpha", ("alpha",)]
 
 
+def lookalikes(n):
+    """other spellings that a unicode normalisation (NFKC: what Python applies to identifiers in source code) maps onto the name:
+    fullwidth forms, mathematical bold letters, ligatures, a compatibility underscore"""
+    out = []
+    if n and all(0x21 <= ord(c) <= 0x7e for c in n):
+        out.append("".join(chr(ord(c) + 0xfee0) for c in n))                              # ｆｕｌｌｗｉｄｔｈ, also of the underscores
+        out.append("".join(chr(ord(c) + 0xfee0) if c.isalpha() else c for c in n))        # only the letters
+        out.append("".join(chr(0x1d41a + ord(c) - ord("a")) if "a" <= c <= "z" else c for c in n))   # mathematical bold small letters
+        out.append(n.replace("_", "\ufe4d") if "_" in n else n[:1] + "\u200d" + n[1:])   # dashed low line / zero width joiner inside
+    if "fi" in n:
+        out.append(n.replace("fi", "\ufb01"))
+    if "fl" in n:
+        out.append(n.replace("fl", "\ufb02"))
+    return [x for x in out if x != n]
+
+
 @st.composite
 def case_strategy(draw):
     spec = draw(spec_strategy())
@@ -297,6 +325,12 @@ def case_strategy(draw):
                                                 n + ".__func__", n.upper(), n + " ", "а" + n[1:] if n.startswith("a") else n + "​"]),
                                max_size=2))
     names += draw(st.lists(st.sampled_from(RESERVED), min_size=2, max_size=5))
+    # look-alike spellings of real members (exposed or not) and of the names that must never be served
+    pool = sorted({m["name"] for m in spec["base"] + spec["sub"]} | {"__class__", "__init__", "__dict__", "__call__", "zz_sync"})
+    for n in draw(st.lists(st.sampled_from(pool), min_size=1, max_size=3)):
+        la = lookalikes(n)
+        if la:
+            names.append(draw(st.sampled_from(la)))
     names += draw(st.lists(st.sampled_from(["__class__.__name__", "__dict__", "__init__.__globals__", "nonexistent", "", ".", "alpha.beta", "_pyroId",
                                             "_pyroDaemon", "__doc__", "__module__", "__slots__", "__wrapped__"]), max_size=3))
     reqs = []
